@@ -76,6 +76,10 @@ def run(ctx) -> None:
     from . import c06
 
     ctx.reuse("C07.split-sum", c06.partition_volume)
+    # ... and every step of the split is accepted by the record validator (it compares the step itself with the limit)
+    from . import c03
+
+    ctx.reuse("C07.split-sum", c03.step_guard_validator)
     # which well number a step addresses on the Fluent (and which side is partitioned by) depends on what counts as a trough
     from . import c08
 
@@ -337,6 +341,25 @@ def reject(ctx, dev) -> None:
                     ok_len = bases == ["destination_wells", "source_wells", "volumes"]
     ctx.rep.check(ok_len, rule, cb + "/lengths", "unequal numbers of sources/destinations/volumes are rejected before the first step",
                   "no guard establishes that source_wells, destination_wells and volumes have one common length (after singleton broadcast) before the pipetting loops: surplus entries are silently dropped by zip", where=w)
+    # singleton broadcast: the common length is the longest of all three arguments
+    reps = []
+    for cs in fv.calls():
+        if isinstance(cs.call.func, ast.Attribute) and cs.call.func.attr == "repeat" and len(cs.call.args) == 2 and fv.cfg.reaches(cs.node, at):
+            base = strip_norm(fv.res.resolve(cs.call.args[0], cs.node))
+            if isinstance(base, ast.Name) and base.id in ("source_wells", "destination_wells", "volumes"):
+                reps.append((cs, base.id, fv.res.resolve(cs.call.args[1], cs.node)))
+    for cs, what, cnt in reps:
+        names = None
+        if isinstance(cnt, ast.Call) and call_fname(cnt) == "max" and not cnt.keywords:
+            args_ = list(cnt.args[0].elts) if len(cnt.args) == 1 and isinstance(cnt.args[0], (ast.Tuple, ast.List)) else list(cnt.args)
+            if args_ and all(call_fname(a_) == "len" and a_.args for a_ in args_):
+                names = sorted(getattr(strip_norm(a_.args[0]), "id", "?") for a_ in args_)
+        if names is None:
+            continue  # another spelling of the count: not judged here
+        missing = sorted({"destination_wells", "source_wells", "volumes"} - set(names) - {what})  # (the repeated one has length 1 here)
+        ctx.rep.check(not missing, rule, cb + f"/broadcast[{what}]", "a singleton is repeated to the longest of the three arguments",
+                      f"a single {what} entry is repeated max({', '.join('len(' + x + ')' for x in names)}) times: the length of {', '.join(missing)} is not taken into account, so one "
+                      f"{what} entry with several {' / '.join(missing)} entries is rejected instead of broadcast", where=f.where(cs.call))
     # negative / NaN volumes
     ok_neg = False
     weak = ""
